@@ -1,4 +1,7 @@
 import Props.C01
 import Props.C02
 import Props.C03
+import Props.C04
+import Props.C10
+import Props.C17
 import Props.C19
